@@ -10,9 +10,11 @@ Proof.
   intros f g Hf Hg. destruct l as [|n r].
   - destruct f, g; reflexivity.
   - destruct f as [|f]; [cbn in Hf; lia|]. destruct g as [|g]; [cbn in Hg; lia|]. cbn in Hf, Hg.
-    destruct n; cbn [spec]; try (apply IH; cbn; lia); f_equal.
-    + apply IH; cbn; pose proof (drop_members_len r); lia.
-    + apply IH; cbn; lia.
+    destruct n as [c i|c i|i|i|i|k i]; cbn [spec]; try (apply IH; cbn; lia); try (f_equal; apply IH; cbn; pose proof (drop_members_len r); lia).
+    destruct k as [|k].
+    + destruct r as [|[c j|c j|j|j|j|k' j] r']; cbn [rep_id app]; try (apply IH; cbn in *; lia).
+      f_equal. apply IH; cbn in *; lia.
+    + f_equal. apply IH; cbn; lia.
 Qed.
 Lemma evaluate_fuel l : forall f g, length l <= f -> length l <= g -> evaluate f l = evaluate g l.
 Proof.
@@ -20,10 +22,13 @@ Proof.
   intros f g Hf Hg. destruct l as [|n r].
   - destruct f, g; reflexivity.
   - destruct f as [|f]; [cbn in Hf; lia|]. destruct g as [|g]; [cbn in Hg; lia|]. cbn in Hf, Hg.
-    destruct n; cbn [evaluate]; try (apply IH; cbn; lia).
+    destruct n as [c i|c i|i|i|i|k i]; cbn [evaluate]; try (apply IH; cbn; lia).
     + destruct (chain c i r) as [out skip]. f_equal.
       apply IH; cbn; rewrite ?skipn_length; lia.
     + f_equal. apply IH; cbn; lia.
+    + destruct k as [|k].
+      * destruct (for_else r 1) as [out skip]. f_equal. apply IH; cbn; rewrite ?skipn_length; lia.
+      * f_equal. apply IH; cbn; lia.
 Qed.
 
 (* after skipping k nodes that are all non-elements or chain members, the elements left
@@ -95,7 +100,8 @@ Proof.
     { intros last' H1 H2. specialize (IH (pre ++ [n]) last' H1 H2).
       rewrite app_length in IH. cbn [length] in IH. rewrite Nat.add_1_r in IH.
       rewrite <- app_assoc in IH. exact IH. }
-    destruct n as [c i | c i | i | i | i]; cbn [find_branch].
+    destruct n as [c i | c i | i | i | i | k i]; cbn [find_branch];
+      [| | | | |split; [reflexivity|]; exists []; split; [|reflexivity]; now apply Hstop].
     + split; [reflexivity|]. exists []. split; [|reflexivity]. now apply Hstop.
     + destruct c.
       * split; [unfold elems; cbn; reflexivity|]. exists (take_members (elems r)).
@@ -150,7 +156,7 @@ Proof.
       rewrite app_length in IH. cbn [length] in IH. rewrite Nat.add_1_r in IH.
       rewrite <- app_assoc in IH. exact IH. }
     cbn [last_member].
-    destruct n as [c i | c i | i | i | i]; cbn [is_elem elseish negb].
+    destruct n as [c i | c i | i | i | i | k i]; cbn [is_elem elseish negb]; [| | | | |rewrite Hstop; reflexivity].
     + rewrite Hstop. reflexivity.
     + rewrite Hnext.
       * rewrite (elems_cons_elem _ r) by reflexivity. reflexivity.
@@ -170,6 +176,26 @@ Proof.
         rewrite forallb_app, Hpre. reflexivity.
 Qed.
 
+(* the scan after an empty loop: only a v-else that is the next element counts *)
+Lemma for_else_spec rest : forall pre,
+  forallb (fun n => negb (is_elem n)) pre = true ->
+  let '(out, skip) := for_else rest (S (length pre)) in
+  match elems rest with
+  | NElse j :: er => out = [j] /\ elems (skipn skip (pre ++ rest)) = er
+  | _ => out = [] /\ skip = 0
+  end.
+Proof.
+  induction rest as [|n r IH]; intros pre Hpre; [cbn; auto|].
+  destruct n as [c i | c i | i | i | i | k i]; cbn [for_else]; try (rewrite (elems_cons_elem _ r) by reflexivity; auto).
+  - split; [reflexivity|].
+    replace (pre ++ NElse i :: r) with ((pre ++ [NElse i]) ++ r) by now rewrite <- app_assoc.
+    replace (S (length pre)) with (length (pre ++ [NElse i])) by (rewrite app_length; cbn; lia).
+    now rewrite skipn_app_len.
+  - rewrite elems_cons_other. specialize (IH (pre ++ [NOther i])).
+    rewrite app_length in IH. cbn [length] in IH. rewrite Nat.add_1_r in IH. rewrite <- app_assoc in IH.
+    apply IH. rewrite forallb_app, Hpre. reflexivity.
+Qed.
+
 Lemma elems_len l : length (elems l) <= length l.
 Proof. unfold elems. induction l as [|x xs IH]; cbn; [lia|]. destruct (is_elem x); cbn; lia. Qed.
 
@@ -181,7 +207,7 @@ Proof.
   destruct l as [|n r]; [reflexivity|]. cbn [length] in Hk.
   assert (IHr : forall x, length x <= length r -> E x = S_ (elems x)).
   { intros x Hx. apply (IH (length x)); [lia|reflexivity]. }
-  destruct n as [c i | c i | i | i | i].
+  destruct n as [c i | c i | i | i | i | m i].
   - (* v-if *)
     unfold E. cbn [length evaluate].
     rewrite (elems_cons_elem _ r) by reflexivity.
@@ -210,6 +236,25 @@ Proof.
     unfold E. cbn [length evaluate]. fold (E r). rewrite IHr by lia.
     rewrite (elems_cons_elem _ r) by reflexivity. unfold S_. cbn [length spec]. reflexivity.
   - rewrite E_other, elems_cons_other. apply IHr. lia.
+  - (* v-for *)
+    unfold E. cbn [length evaluate]. rewrite (elems_cons_elem _ r) by reflexivity.
+    destruct m as [|m].
+    + pose proof (for_else_spec r [] eq_refl) as Hs. cbn [length app] in Hs.
+      destruct (for_else r 1) as [out skip].
+      rewrite (evaluate_fuel _ _ (length (skipn skip r))) by (rewrite ?skipn_length; lia).
+      fold (E (skipn skip r)). rewrite IHr by (rewrite skipn_length; lia).
+      destruct (elems r) as [|[c j|c j|j|j|j|k' j] er] eqn:Her.
+      * destruct Hs as [-> ->]. cbn [skipn app]. rewrite Her. reflexivity.
+      * destruct Hs as [-> ->]. cbn [skipn app]. rewrite Her. unfold S_. cbn [length spec rep_id app]. reflexivity.
+      * destruct Hs as [-> ->]. cbn [skipn app]. rewrite Her. unfold S_. cbn [length spec rep_id app]. reflexivity.
+      * destruct Hs as [-> Hs]. rewrite Hs. unfold S_. cbn [length app].
+        change (spec (S (S (length er))) (NFor 0 i :: NElse j :: er)) with (j :: spec (S (length er)) er).
+        f_equal. apply spec_fuel; cbn; lia.
+      * destruct Hs as [-> ->]. cbn [skipn app]. rewrite Her. unfold S_. cbn [length spec rep_id app]. reflexivity.
+      * exfalso. assert (H : In (NOther j) (elems r)) by (rewrite Her; left; reflexivity).
+        unfold elems in H. apply filter_In in H. destruct H as [_ H]. discriminate.
+      * destruct Hs as [-> ->]. cbn [skipn app]. rewrite Her. unfold S_. cbn [length spec rep_id app]. reflexivity.
+    + fold (E r). rewrite IHr by lia. unfold S_. cbn [length spec]. reflexivity.
 Qed.
 
 (* ---- the specification read as the property states it ---- *)
@@ -235,4 +280,20 @@ Theorem spec_orphan n r : elseish n = true -> S_ (n :: r) = S_ r.
 Proof. intro H. change (n :: r) with ([n] ++ r). apply S_orphans. cbn. now rewrite H. Qed.
 (* first_truthy returns at most one member: the first truthy v-else-if, else the v-else *)
 Lemma first_truthy_at_most_one ms : length (first_truthy ms) <= 1.
-Proof. induction ms as [|[c i|c i|i|i|i] r IH]; cbn; try lia. destruct c; cbn; lia. Qed.
+Proof. induction ms as [|[c i|c i|i|i|i|k i] r IH]; cbn; try lia. destruct c; cbn; lia. Qed.
+(* a loop is not a chain member: it renders one instance per item and what follows is rendered as if the
+   loop were not there; an empty loop hands over to a v-else that is the very next element, and to nothing else *)
+Theorem spec_for_items n i r : S_ (NFor (S n) i :: r) = rep_id (S n) i ++ S_ r.
+Proof. unfold S_. cbn [length]. change (spec (S (length r)) (NFor (S n) i :: r)) with (rep_id (S n) i ++ spec (length r) r). reflexivity. Qed.
+Theorem spec_for_empty_else i j r : S_ (NFor 0 i :: NElse j :: r) = j :: S_ r.
+Proof.
+  unfold S_. cbn [length]. change (spec (S (S (length r))) (NFor 0 i :: NElse j :: r)) with (j :: spec (S (length r)) r).
+  f_equal. apply spec_fuel; lia.
+Qed.
+Theorem spec_for_empty_other i r : match r with NElse _ :: _ => False | _ => True end -> S_ (NFor 0 i :: r) = S_ r.
+Proof.
+  intro H. unfold S_. cbn [length].
+  assert (G : spec (S (length r)) (NFor 0 i :: r) = spec (length r) r).
+  { destruct r as [|[c j|c j|j|j|j|k j] r']; try reflexivity. destruct H. }
+  exact G.
+Qed.
